@@ -63,7 +63,7 @@ def _cmsg(I, m):
 
 
 def _inputs(c):
-    return {k: c[k] for k in ("k", "buf", "nc", "script", "scripts", "readers", "seed", "idx", "n", "input") if k in c}
+    return {k: c[k] for k in ("k", "buf", "nc", "script", "scripts", "readers", "peer", "seed", "idx", "n", "input") if k in c}
 
 
 def _deliveries(c):
@@ -98,7 +98,9 @@ class C07(Prop):
                  "g_serve_defers_unsuball", "g_serve_queue_cap_is_buflen", "g_subs_subscribe_calls",
                  "g_subs_unsubscribe_calls", "g_subs_unsuball_calls", "g_subs_publish_calls", "g_safemap_locks",
                  "RouterHandler", "subscribers.", "safeMap", "trySendCtx", "SendIfMatch")
-    rule = ("45% deterministic scripts (2..5 connections on one RouterHandler, buflen 1..3, 8..31 client operations "
+    rule = ("the handler's context carries nothing about the peer (50%), an http.Request with the same RemoteAddr for every "
+            "connection (30%: a relay on a unix socket or behind a proxy) or with distinct ip:port addresses (20%); "
+            "45% deterministic scripts (2..5 connections on one RouterHandler, buflen 1..3, 8..31 client operations "
             "REQ/EVENT/CLOSE/COUNT/disconnect/pause-reader/resume-reader executed one at a time, about 7% of them "
             "followed by an immediate disconnect without waiting for the reply, a paused reader that disconnects "
             "mostly does so without reading what is pending, subscription ids "
